@@ -10,6 +10,7 @@ use assets_manager as _; // dependency kept so that cargo rebuilds when the chec
 mod support;
 pub mod lalloc;
 pub mod once_cell_loom;
+pub mod tracked;
 
 // ---------------------------------------------------------------------------------------------
 // Stubs for what the kernels import from the rest of the crate
@@ -29,7 +30,21 @@ pub trait Compound: Sized + Send + Sync + 'static {
     const HOT_RELOADED: bool = true;
 }
 
+/// Target of the `std::sync` redirection for `utils/private.rs` only: `loom::sync` plus the one name
+/// the std branch of `wrap` uses that loom does not re-export (`PoisonError`; loom's `LockResult` is
+/// std's, so the type is the same one).  No behaviour of its own.
+pub mod loom_sync {
+    pub use loom::sync::*;
+    pub use std::sync::PoisonError;
+}
+
 pub mod utils {
+    /// `sync` alias, `wrap`, `Mutex`, `Condvar` extracted by name from the real `utils/private.rs`,
+    /// `cfg(feature = "parking_lot")` evaluated as false (std flavour), over loom's Mutex / Condvar.
+    pub mod std_locks {
+        include!(concat!(env!("OUT_DIR"), "/std_locks.rs"));
+    }
+    pub(crate) use std_locks::{Condvar, Mutex};
     pub mod bytes {
         include!(concat!(env!("OUT_DIR"), "/bytes.rs"));
     }
@@ -79,7 +94,32 @@ pub mod entry {
     }
 }
 
+pub mod hot_reloading {
+    // `struct Answers` + `impl Answers` extracted by name from the real `hot_reloading/mod.rs`
+    include!(concat!(env!("OUT_DIR"), "/answers.rs"));
+
+    /// Harness access to the private items (child module).  No kernel behaviour is changed.
+    pub mod probe {
+        pub struct A(super::Answers);
+        impl A {
+            pub fn new() -> A {
+                A(super::Answers::default())
+            }
+            pub fn get_unique_token(&self) -> usize {
+                self.0.get_unique_token()
+            }
+            pub fn notify(&self, token: usize) {
+                self.0.notify(token)
+            }
+            pub fn wait_for_answer(&self, token: usize) {
+                self.0.wait_for_answer(token)
+            }
+        }
+    }
+}
+
 mod driver;
+mod h_c08;
 mod h_c06;
 mod h_c07;
 mod h_c16;
